@@ -185,7 +185,7 @@ def check_sel(res, st, cid, script, stats, sa_lines, sa_info, isotropic_doc):
         vals, coef = st.obs.get("values", []), st.obs.get("coef", [])
         act = outs if out == -1 else 1
         norm = [max([abs(vals[i * outs + k]) for i in range(n)] + [0.0]) for k in range(outs)]
-        mixed = 0
+        mixed, stable_bad = 0, []
         for i in range(n):
             big, border = False, False
             for kk, k in enumerate(range(outs) if out == -1 else [out]):
@@ -207,18 +207,23 @@ def check_sel(res, st, cid, script, stats, sa_lines, sa_info, isotropic_doc):
             if crit in ISOTROPIC:
                 if not uniform or (rows[i][0] == 1) != big:
                     viol("update-map-differs-from-documented-flags:" + crit,
-                         "point %s: map row %s, but max_k c_k|s_k|/norm_k %s tolerance %a" % (prow[i], rows[i], ">" if big else "<=", tol))
+                         "point %s: map row %s, but max_k c_k|s_k|/norm_k %s tolerance %s" % (prow[i], rows[i], ">" if big else "<=", tol.hex()))
                     break
             elif any(rows[i]) and not big:
                 viol("direction-flagged-with-small-coefficient:" + crit,
-                     "point %s: map row %s although every scaled coefficient is <= tolerance %a" % (prow[i], rows[i], tol))
+                     "point %s: map row %s although every scaled coefficient is <= tolerance %s" % (prow[i], rows[i], tol.hex()))
                 break
+            elif crit == "stable" and isotropic_doc and (not uniform or (rows[i][0] == 1) != big):
+                stable_bad.append((prow[i], rows[i], big))
         if crit == "stable" and mixed:
             stats["stable_mixed_rows"] += 1
-            if isotropic_doc:
-                viol("stable-map-anisotropic:localp",
-                     "refine_stable is documented as isotropic (tsgEnumerates.hpp) but buildUpdateMap flags single directions: %d of %d points have "
-                     "a row that is neither all 0 nor all 1, e.g. %s -> %s" % (mixed, n, *next((prow[i], rows[i]) for i in range(n) if len(set(rows[i])) > 1)))
+        if stable_bad:
+            # documented: "isotropic" (enum comment and the Refinement Types paragraph of tsgEnumerates.hpp); the code sends refine_stable
+            # through the one-directional surplus branch of buildUpdateMap, like direction_selective
+            viol("stable-map-anisotropic:localp",
+                 "refine_stable is documented as isotropic (tsgEnumerates.hpp) but buildUpdateMap uses the direction-selective indicator: %d of %d "
+                 "points have a map row that is not (all ones iff scaled coefficient > tolerance), e.g. point %s row %s coefficient %s tolerance %s"
+                 % (len(stable_bad), n, stable_bad[0][0], stable_bad[0][1], ">" if stable_bad[0][2] else "<=", tol.hex()))
     up = 1 if crit in ("parents", "fds") else 0
     stb = 1 if crit == "stable" else 0
     sid = "%s#%d" % (cid, len([1 for k in sa_info if k.startswith(cid + "#")]))
@@ -249,6 +254,16 @@ def run(res, tier, seed, replay_script=None):
         cid = replay_script[0].split()[1] if replay_script and replay_script[0].startswith("case ") else "replay"
         scripts[cid] = list(replay_script) if replay_script[0].startswith("case ") else ["case replay"] + list(replay_script)
     else:
+        # corpus first: witnesses of confirmed findings / regression inputs (corpus/C07/*.json written for the seldrv driver)
+        cdir = os.path.join(vlib.ROOT, "corpus", "C07")
+        for f in sorted(os.listdir(cdir)) if os.path.isdir(cdir) else []:
+            try:
+                w = json.load(open(os.path.join(cdir, f)))
+            except (OSError, ValueError):
+                continue
+            if isinstance(w, dict) and w.get("driver") == "seldrv" and w.get("script"):
+                cid = "corpus_" + re.sub(r"[^A-Za-z0-9]", "_", f[:-5])
+                scripts[cid] = ["case " + cid] + [l for l in w["script"] if not l.startswith("case ")]
         for ls in matrix_cases():
             scripts[ls[0].split()[1]] = ls
         for i in range({"quick": 1000, "thorough": 12000}[tier] * (2 if proof_broken else 1)):
